@@ -56,7 +56,24 @@ func concEvents(args []string, out *bufio.Writer) {
 			runtime.GOMAXPROCS(pick(r, []int{3, 5, 6, 7, 12}))
 			o.MaximumSize = 50000
 		}
+		// the kind of cache: bounded (most), without any maintenance at all (no bound, no expiry: writers never touch the eviction
+		// lock, InvalidateAll is the only bulk path), expiry only
+		kind := "bounded"
+		if !big {
+			switch i % 6 {
+			case 4:
+				kind = "plain"
+				o.MaximumSize = 0
+			case 5:
+				kind = "expiring"
+				o.MaximumSize = 0
+				o.ExpiryCalculator = otter.ExpiryWriting[int, int](time.Hour)
+			}
+		}
+		// in half of the scripts InvalidateAll runs concurrently with the writers, again and again
+		sweeper := r.chance(0.5)
 		c := otter.Must(o)
+		fmt.Fprintf(out, "cfg kind=%s big=%v sweeper=%v\n", kind, big, sweeper)
 		nkeys := 1 + r.intn(6)
 		writers := 2 + r.intn(7)
 		if big {
@@ -65,6 +82,23 @@ func concEvents(args []string, out *bufio.Writer) {
 		}
 		written := make([][]int, writers)
 		var wg sync.WaitGroup
+		stopSweeper := make(chan struct{})
+		sweeperDone := make(chan struct{})
+		go func() {
+			defer close(sweeperDone)
+			if !sweeper {
+				return
+			}
+			for {
+				select {
+				case <-stopSweeper:
+					return
+				default:
+				}
+				c.InvalidateAll()
+				time.Sleep(time.Duration(20+r.intn(200)) * time.Microsecond)
+			}
+		}()
 		for w := 0; w < writers; w++ {
 			wg.Add(1)
 			ws := r.next()
@@ -104,7 +138,12 @@ func concEvents(args []string, out *bufio.Writer) {
 							written[w] = append(written[w], v)
 						}
 					case 9:
-						c.SetMaximum(uint64(lr.intn(6)))
+						if kind == "bounded" {
+							c.SetMaximum(uint64(lr.intn(6)))
+						} else {
+							c.Set(k, v)
+							written[w] = append(written[w], v)
+						}
 					default:
 						c.GetIfPresent(k)
 					}
@@ -115,6 +154,8 @@ func concEvents(args []string, out *bufio.Writer) {
 			}(w)
 		}
 		wg.Wait()
+		close(stopSweeper)
+		<-sweeperDone
 		settle := func() {
 			for t := 0; t < 2000; t++ {
 				pending.Wait()
